@@ -418,6 +418,8 @@ class Obligation:
 
 Z3_TIMEOUT_MS = int(os.environ.get("SEGVC_Z3_TIMEOUT_MS", "20000"))
 MBQI_TIMEOUT_MS = int(os.environ.get("SEGVC_MBQI_TIMEOUT_MS", "8000"))
+SEQ_Z3_TIMEOUT_MS = int(os.environ.get("SEGVC_SEQ_Z3_TIMEOUT_MS", "4000"))
+CVC5_TIMEOUT_MS = int(os.environ.get("SEGVC_CVC5_TIMEOUT_MS", "30000"))
 QI_BOUND = int(os.environ.get("SEGVC_QI_BOUND", "30000"))
 COVER_TIMEOUT_MS = int(os.environ.get("SEGVC_COVER_TIMEOUT_MS", "2500"))
 FEAS_TIMEOUT_MS = int(os.environ.get("SEGVC_FEAS_TIMEOUT_MS", "500"))
@@ -531,6 +533,32 @@ class State:
         r = s2.check()
         return ("sat" if r == z3.sat else "unsat" if r == z3.unsat else "unknown"), time.time() - t0
 
+    use_cvc5 = False  # set by units whose obligations are over byte sequences (z3's sequence solver is unstable there)
+
+    def cvc5_check(self, assertions, timeout_ms, extra=()):
+        """second back end: the same query as SMT-LIB text through /usr/bin/cvc5 --strings-exp.
+        returns "unsat" | "sat" | "unknown" and the text of cvc5's model when sat"""
+        import subprocess
+        import tempfile
+
+        s = z3.Solver()
+        s.add(*assertions)
+        text = "(set-logic ALL)\n(set-option :produce-models true)\n" + s.to_smt2() + "(get-model)\n"
+        with tempfile.NamedTemporaryFile("w", suffix=".smt2", delete=False) as f:
+            f.write(text)
+            path = f.name
+        try:
+            p = subprocess.run(["/usr/bin/cvc5", "--strings-exp", *extra, f"--tlimit={timeout_ms}", path], capture_output=True, text=True, timeout=timeout_ms / 1000 + 10)
+            out = p.stdout.strip().splitlines()
+            first = out[0].strip() if out else "unknown"
+            if first not in ("sat", "unsat"):
+                return "unknown", (p.stdout + p.stderr)[-300:]
+            return first, "\n".join(out[1:])[:3000]
+        except Exception as e:  # noqa: BLE001
+            return "unknown", f"cvc5 failed: {e}"
+        finally:
+            os.unlink(path)
+
     def prove(self, goal):
         """returns (verdict, seconds, model_or_None, detail)
 
@@ -541,12 +569,44 @@ class State:
         """
         t0 = time.time()
         self.solver.push()
-        self.solver.set("timeout", Z3_TIMEOUT_MS)
+        self.solver.set("timeout", SEQ_Z3_TIMEOUT_MS if self.use_cvc5 else Z3_TIMEOUT_MS)
         self.solver.add(z3.Not(goal))
         r = self.solver.check()
         if r == z3.unsat:
             self.solver.pop()
             return "proved", time.time() - t0, None, "z3-ematch"
+        if self.use_cvc5 and r == z3.unknown:
+            # byte-sequence obligation that z3 left open: cvc5 decides (a `sat` answer comes with cvc5's model)
+            assertions = list(self.solver.assertions())
+            self.solver.pop()
+            v, info = self.cvc5_check(assertions, CVC5_TIMEOUT_MS)
+            if v == "unknown":
+                # model finding: finite-model-finding mode of cvc5's string solver (only a `sat` answer is used)
+                v2, info2 = self.cvc5_check(assertions, CVC5_TIMEOUT_MS, extra=("--strings-fmf",))
+                if v2 == "sat":
+                    v, info = v2, info2
+                if v == "unknown" and os.environ.get("SEGVC_DUMP"):
+                    self.n += 1
+                    s_ = z3.Solver()
+                    s_.add(*assertions)
+                    with open(os.path.join(os.environ["SEGVC_DUMP"], f"unknown-{os.getpid()}-{self.n}.smt2"), "w") as f:
+                        f.write("(set-logic ALL)\n" + s_.to_smt2())
+            dt = time.time() - t0
+            if v == "unsat":
+                return "proved", dt, None, "cvc5"
+            if v == "sat":
+                return "refuted", dt, {"cvc5-model": info}, "cvc5 model"
+            # cvc5 undecided as well (typically: quantified axioms + sequences): z3 with MBQI may still find a model
+            s2 = z3.Solver()
+            s2.set("timeout", MBQI_TIMEOUT_MS)
+            s2.add(*assertions)
+            r2 = s2.check()
+            dt = time.time() - t0
+            if r2 == z3.unsat:
+                return "proved", dt, None, "z3-mbqi"
+            if r2 == z3.sat:
+                return "refuted", dt, s2.model(), "z3-mbqi model"
+            return "unknown", dt, None, f"z3 e-matching, cvc5 and z3 mbqi all undecided: {info[:120]}; {s2.reason_unknown()}"
         reason1 = self.solver.reason_unknown() if r == z3.unknown else "sat"
         cand = None
         try:
